@@ -59,6 +59,9 @@ def _const_items(it, consts=None):
         return list(it.elts) if len(it.elts) <= 12 else None
     if consts is not None and isinstance(it, ast.Name) and it.id in consts:
         return list(consts[it.id])
+    if consts is not None and isinstance(it, ast.Attribute) and isinstance(it.value, ast.Name) and ('.' + it.attr) in consts \
+            and it.value.id in consts.get('$owners', ('self', 'cls')):
+        return list(consts['.' + it.attr])          # a tuple / list literal bound at class level, read through self / cls / the class name
     if isinstance(it, ast.Call) and isinstance(it.func, ast.Name) and it.func.id == 'range' and not it.keywords and 1 <= len(it.args) <= 3:
         vals = []
         for a in it.args:
@@ -299,7 +302,7 @@ def _inline_call(methods, call, how, target, depth, stop=(), ho_only=False, impu
     body = [s for s in callee.body if not (isinstance(s, ast.Expr) and isinstance(s.value, ast.Constant))]
     if not _tail_returns_only(body) and depth > 0:
         # constant-trip loops of the helper are unrolled first: their returns then sit in guard position
-        body = flatten_body(methods, copy.deepcopy(body), depth - 1, None, stop, ho_only, impure)
+        body = flatten_body(methods, copy.deepcopy(body), depth - 1, _CLASS_CONSTS[-1] if _CLASS_CONSTS else None, stop, ho_only, impure)
     search_loop = False
     if not _tail_returns_only(body):
         # a helper that ends in `while True:` and returns from inside it (a search loop): `return v` becomes `<target> = v; break`
@@ -635,6 +638,18 @@ def flatten_body(methods, body, depth=3, consts=None, stop=(), ho_only=False, im
                 if ok:
                     out.extend(flatten_body(methods, unrolled, depth, consts, stop, ho_only, impure))
                     continue
+        if isinstance(st, ast.If) and depth > 0 and not ho_only:
+            # `if helper(...):` / `if not helper(...):` - the helper's verdict is named first, so that it is read in place like any assigned call
+            t_ = st.test.operand if (isinstance(st.test, ast.UnaryOp) and isinstance(st.test.op, ast.Not)) else st.test
+            if isinstance(t_, ast.Call):
+                tmp_ = ast.Name(id='_cond_%d_%d' % (st.lineno, st.col_offset), ctx=ast.Store())
+                rep_ = _inline_call(methods, t_, 'assign', tmp_, depth, stop, ho_only, impure)
+                if rep_ is not None:
+                    ld_ = ast.Name(id=tmp_.id, ctx=ast.Load())
+                    st2 = copy.copy(st)
+                    st2.test = ast.copy_location(ast.UnaryOp(op=ast.Not(), operand=ld_), st.test) if t_ is not st.test else ast.copy_location(ld_, st.test)
+                    out.extend(list(rep_))
+                    st = st2
         if isinstance(st, ast.If):
             st = copy.copy(st)
             st.body = flatten_body(methods, st.body, depth, consts, stop, ho_only, impure)
@@ -709,11 +724,28 @@ def _counting_whiles(body):
     return out
 
 
-def flatten(methods, fn, depth=3, stop=(), ho_only=False, impure=False):
+_CLASS_CONSTS = []          # class-level constant tables of the flatten() in progress (helpers read them too)
+
+
+def class_constants(cls_node):
+    """{'.NAME': elements} for `NAME = (literal tuple / list)` bound in a class body, plus '$owners': the names the class is read through"""
+    out = {'$owners': ('self', 'cls', cls_node.name)}
+    for st in cls_node.body:
+        if isinstance(st, ast.Assign) and len(st.targets) == 1 and isinstance(st.targets[0], ast.Name) and isinstance(st.value, (ast.Tuple, ast.List)) \
+                and len(st.value.elts) <= 12:
+            out['.' + st.targets[0].id] = list(st.value.elts)
+    return out
+
+
+def flatten(methods, fn, depth=3, stop=(), ho_only=False, impure=False, consts=None):
     # impure=True: call-valued arguments are substituted too - the result is only analysed for its STRUCTURE, never for effects counts
     new = copy.deepcopy(fn)
     body = [s for s in new.body]
-    new.body = [_fold(s) for s in flatten_body(methods, body, depth, None, stop, ho_only, impure)]
+    _CLASS_CONSTS.append({k_: v_ for k_, v_ in (consts or {}).items() if k_.startswith(('.', '$'))} or None)
+    try:
+        new.body = [_fold(s) for s in flatten_body(methods, body, depth, consts, stop, ho_only, impure)]
+    finally:
+        _CLASS_CONSTS.pop()
     ast.fix_missing_locations(new)
     return new
 
